@@ -451,6 +451,11 @@ def lint_program(rng):
             return st(s), ('str', s)
         if r < 0.8:
             return rng.choice([TRUE, NULL, MYST]), None
+        if r < 0.86:
+            # not constants although built from literals only: a pop or a call whose operand is a literal
+            e = rng.choice([('popx', st('abc')), ('popx', num(5)), ('popx', ('popx', st('q'))), call(sv('ff'), st('a')), call(sv('ff'), num(1)),
+                            bin_('plus', num(1), ('popx', num(2))), ('popx', ('lit', ('str', '')))])
+            return e, 'unknown'
         e = g.expr(2)
         while not reads(e):
             e = g.expr(2)
@@ -775,6 +780,10 @@ def c19(run):
     cases = []
     for i in range(n):
         names = [sv('xx'), sv('Xx'), ('common', 'the', 'cat'), ('common', 'The', 'cat'), ('proper', ['Bad', 'Joe'])][:rng.randint(1, 5)]
+        if rng.random() < 0.15:
+            # distinct names that agree on a long prefix (consecutive mentions of DIFFERENT names must not be reported)
+            fam = rock.long_prefix_family(rng)
+            names = rng.sample(fam, rng.randint(2, 4))
         g = rock.Gen(rng, names=names, funcs=names[:rng.randint(1, 2)], max_depth=rng.randint(1, 3))
         g.fresh_name = lambda: rng.choice(names + [sv('pp')])
         prog = g.program(depth=rng.randint(0, 2))
